@@ -56,6 +56,10 @@ Definition reach_ok (g : graph) (srcs bads : list node) : bool :=
   | Some R => existsb (fun b => PositiveSet.mem b R) bads
   end.
 
+(* the graph with the out-edges of the nodes in [B] removed (barriers) *)
+Definition cut (g : graph) (B : list node) : graph :=
+  filter (fun e => negb (existsb (Pos.eqb (fst e)) B)) g.
+
 Definition mem_edge (a b : node) (l : list (node * node)) : bool :=
   existsb (fun e => Pos.eqb (fst e) a && Pos.eqb (snd e) b) l.
 
